@@ -176,6 +176,7 @@ class SessionOb(TemplateObligation):
 
         names = make_names(self.slots, ("k",), self.length)
         low = lambda s: names[s].lower()
+        low.names = names
         exp = self.expect(low)
         md = {SymStr.const("other.tab"): [SymStr.const("cq")]}
         finding = None
@@ -302,7 +303,19 @@ def e_star_between_redefinitions(low):
     return Expect(sources=[A, B], targets=[W, V], intermediates=[M], pairs=pairs)
 
 
+def e_two_tables_by_case(low):
+    """two QUOTED tables written in one script (their spellings may differ by case only: distinct tables): a later wildcard
+    over one of them expands to the columns the script gave THAT table"""
+    n = low.names
+    t3, t4 = cat("s.", n["zqk3"]), cat("s.", n["zqk4"])
+    eng().assume(f_not(n["zqk3"]._eq(n["zqk4"])))
+    k1, k2 = low("zqk1"), low("zqk2")
+    return Expect(sources=[A, B], targets=[W, t4], intermediates=[t3], pairs=[(Cc(A, k1), Cc(W, k1)), (Cc(B, k2), Cc(t4, k2))])
+
+
 SESSION = {
+    "two_quoted_tables_by_case": (['CREATE TABLE s."zqk3" AS SELECT zqk1 FROM s.ta', 'CREATE TABLE s."zqk4" AS SELECT zqk2 FROM s.tb',
+                                   'INSERT INTO s.w SELECT * FROM s."zqk3"'], e_two_tables_by_case),
     "star_from_redefined": (["CREATE TABLE s.m AS SELECT zqk1 FROM s.ta", "CREATE TABLE s.m AS SELECT zqk2 FROM s.tb", "INSERT INTO s.w SELECT * FROM s.m"], e_star_redefined),
     "star_between_redefinitions": (["CREATE TABLE s.m AS SELECT zqk1 FROM s.ta", "INSERT INTO s.w SELECT * FROM s.m",
                                     "CREATE TABLE s.m AS SELECT zqk2 FROM s.tb", "INSERT INTO s.v SELECT * FROM s.m"], e_star_between_redefinitions),
